@@ -364,17 +364,28 @@ class QueryPlanner:
         # split to select from api database
         #     keep only limit and where
         #     the rest goes to outer select
+        # limit can be applied before the outer select only if the outer select keeps every row
+        limit = None
+        if (
+                query.offset is None
+                and query.group_by is None
+                and query.having is None
+                and not query.distinct
+        ):
+            limit = query.limit
+
         query2 = Select(
             targets=query.targets,
             from_table=query.from_table,
             where=query.where,
             order_by=query.order_by,
-            limit=query.limit,
+            limit=limit,
         )
         prev_step = self.plan_integration_select(query2)
 
         # clear limit and where
-        query.limit = None
+        if limit is not None:
+            query.limit = None
         query.where = None
         return self.plan_sub_select(query, prev_step)
 
